@@ -14,7 +14,7 @@ ASSUMPTIONS = [
     "game names are [a-z0-9_]+; a name equal to another name + '_no_prune' is generated only in dedicated collision probes (open known finding)",
 ]
 RULE = ("run = pool of 2-7 named games (paper/example files, generator boards, random, malformed, no-solution) + 1-8 ops from "
-        "{run_games batch through the API re-using the same dict objects, CLI batch (write input file, restart, main() [-s] [-l]), "
+        "{run_games batch through the API re-using the same dict objects (sometimes after a batch aborted by Ctrl-C at a seeded step), CLI batch (write input file, restart, main() [-s] [-l]), "
         "restart} in seeded orders/subsets with failing games at seeded positions, clock steps/jumps/freezes, log levels, stack "
         "depth; non-trivial = a batch with >=2 games of which one prunes something, or a failing game adjacent to a solvable one; "
         "distinct = hash of (batch shapes, game hashes, fault kinds fired)")
@@ -69,6 +69,8 @@ def gen(rng, tier, ctx):
         env = common.gen_env(rng, faulty=(klass != "plain"))
         if r < 0.55:
             op = {"op": "batch", "games": games}
+            if klass == "faulty" and rng.random() < 0.2:
+                op["interrupt"] = {"frac": rng.random()}     # Ctrl-C inside the batch; the session goes on
         elif r < 0.9:
             op = {"op": "cli", "games": games, "stem": rng.choice(["in1", "My_Games_2", "x", "robot_1_w2"]),
                   "style": rng.choice(textstyle.STYLES), "save": rng.random() < 0.6,
@@ -104,8 +106,7 @@ def simplify(spec):
                 yield dict(spec, ops=ops_[:i] + [dict(op, style="repr")] + ops_[i + 1:])
     yield from common.simplify_env(spec)
     # replace a pool game by a tiny solvable one
-    tiny = enc({"rewards": [0, 0, 0], "players": ["Probabilistic"] * 3,
-                "transition_list": [[(0.5, 1), (0.5, 2)], [(1, 1)], [(1, 2)]], "final_states": [2]})
+    tiny = TINY
     for i, p in enumerate(spec["pool"]):
         if canon_e(p["desc"]) != canon_e(tiny):
             np_ = list(spec["pool"])
@@ -123,6 +124,28 @@ def classify(ctx, desc_e):
     if ru["status"] != "ok":
         return "unusable:unpruned-" + ru["status"], rp, ru
     return "ok", rp, ru
+
+
+TINY = enc({"rewards": [0, 0, 0], "players": ["Probabilistic"] * 3,
+            "transition_list": [[(0.5, 1), (0.5, 2)], [(1, 1)], [(1, 2)]], "final_states": [2]})
+
+
+def alone_msgs(ctx, desc_e):
+    """(pruned msg, unpruned msg) the batch runner gives this game when it is the only one,
+    in a never-used process; None if that run does not return two entries."""
+    cap = getattr(ctx, "sweep_cap", None)
+    r = ctx.ref.call("run_alone", {"desc": desc_e, "name": "alone", "sweep_cap": cap},
+                     key=("run_alone", canon_e(desc_e), cap))
+    if r["status"] != "ok":
+        return None
+    val = dec(r["value"])
+    try:
+        ents = list(val.values())
+        if len(ents) != 2:
+            return None
+        return ents[0].get("msg"), ents[1].get("msg")
+    except Exception:
+        return None
 
 
 def check_entries(i_op, spec, games, result, ctx, w, states):
@@ -149,9 +172,11 @@ def check_entries(i_op, spec, games, result, ctx, w, states):
                 want = dec(r["value"])
                 got = tuple(ent.get(k) for k in RESULT_KEYS)
                 states.append(h(canon(got)))
-                if ent.get("msg") != "Game solved":
-                    return viol("I12.2", i_op, "game %r (%s) is solvable alone but its %s entry says %r (batch order %s)" % (
-                        nm, p.get("tag"), "pruned" if prune else "unpruned", ent.get("msg"), names), "solvable-marked-failed")
+                am = alone_msgs(ctx, p["desc"])
+                want_msg = am[0 if prune else 1] if am else "Game solved"
+                if ent.get("msg") != want_msg:
+                    return viol("I12.2", i_op, "game %r (%s) is solvable alone (message %r) but its %s entry says %r (batch order %s)" % (
+                        nm, p.get("tag"), want_msg, "pruned" if prune else "unpruned", ent.get("msg"), names), "solvable-marked-failed")
                 if canon(got) != canon(want):
                     return viol("I12.2", i_op, "entry %r (%s) differs from solving the game alone (batch order %s): got %s, alone %s" % (
                         key, p.get("tag"), names, short(got, 500), short(want, 500)), "result-differs")
@@ -164,14 +189,18 @@ def check_entries(i_op, spec, games, result, ctx, w, states):
                     pass
             else:
                 m = rp["emsg"]
+                am = alone_msgs(ctx, p["desc"])
+                solved = alone_msgs(ctx, TINY)
                 if prune:
-                    if ent.get("msg") != "Error while solving the game: " + m:
-                        return viol("I12.3", i_op, "game %r (%s) fails alone with ValueError(%r) but its entry says %r" % (
-                            nm, p.get("tag"), m, ent.get("msg")), "failure-message")
+                    want_msg = am[0] if am else "Error while solving the game: " + m
+                    if ent.get("msg") != want_msg or m not in str(ent.get("msg")):
+                        return viol("I12.3", i_op, "game %r (%s) fails alone with ValueError(%r) (entry message alone: %r) but its entry says %r" % (
+                            nm, p.get("tag"), m, want_msg, ent.get("msg")), "failure-message")
                 else:
-                    if ent.get("msg") != "Game not solved":
-                        return viol("I12.3", i_op, "unpruned entry of failing game %r says %r, expected 'Game not solved'" % (
-                            nm, ent.get("msg")), "failure-message")
+                    want_msg = am[1] if am else "Game not solved"
+                    if ent.get("msg") != want_msg or (solved and ent.get("msg") == solved[1]):
+                        return viol("I12.3", i_op, "unpruned entry of failing game %r says %r; alone it says %r and a solved game says %r" % (
+                            nm, ent.get("msg"), want_msg, solved[1] if solved else None), "failure-message")
                 if any(ent.get(k) is not None for k in ("final_strategies", "reachability_strategies", "rewards", "probabilities")):
                     return viol("I12.3", i_op, "entry %r of a failing game carries results: %s" % (key, short(ent, 300)),
                                 "failure-has-results")
@@ -254,6 +283,26 @@ def execute(spec, w, ctx):
             cfg["log"] = "i"    # debug logging emits a record per state per sweep
         if kind == "batch":
             arg = {pool[g]["name"]: live[g] for g in games}
+            if op.get("interrupt") and not heavy and cfg["step_cap"] < 20 * 6000 + 100000:
+                # measure a clean execution in fine steps (checked like any other), then interrupt a second one;
+                # whatever the aborted batch left in the process must not leak into later batches
+                c0 = dict(cfg, fine=True, step_cap=40 * cfg["step_cap"])
+                out0 = ops.run_games(w, arg, c0)
+                if out0["status"] == "ok":
+                    v = check_entries(i_op, spec, games, out0["value"], ctx, w, states)
+                    if v is None:
+                        ci = dict(c0, interrupt={"frac": op["interrupt"]["frac"], "total": out0["steps"]})
+                        outi = ops.run_games(w, arg, ci)
+                        events.append([i_op, "batch-interrupted", outi["status"], outi.get("site")])
+                        if outi["status"] == "interrupt":
+                            w.probe("interrupt-in:" + str(outi.get("site", "?")).split(":")[0])
+                if v is not None:
+                    if ctx.known_match(ID, v) is not None:
+                        res["known"].append(v)
+                        v = None
+                    else:
+                        res["violation"] = v
+                        break
             out = ops.run_games(w, arg, cfg)
             s_status = out["status"]
             events.append([i_op, "batch", [pool[g]["name"] for g in games], s_status, out["steps"]])
